@@ -5,6 +5,7 @@ def dispatch (engine : String) (toks : List String) : String :=
   match engine with
   | "bits" => bitsLine toks
   | "pages" => pagesLine toks
+  | "writer" => writerLine toks
   | _ => "BADENGINE"
 
 partial def loop (engine : String) (h : IO.FS.Stream) (out : IO.FS.Stream) : IO Unit := do
